@@ -99,7 +99,7 @@ def rules(t):
         for br in t.branches(gp):
             if br["kind"] == "discr" and br["bb"] in body and "IterMut" in fmt(br["on"]) and "next" in fmt(br["on"]):
                 legit |= {(br["bb"], tgt) for tgt in list(br["targets"].values()) + [br["otherwise"]] if tgt not in body}
-        extra = exits - legit
+        extra = {e_ for e_ in exits - legit if gp.reachable_from([e_[1]]) & set(gp.returns)}      # (an `unreachable` block of a desugared `for` is not an exit)
         if extra: r.bad("exit", Site(gp, list(extra)[0][0], 0, gp.blocks[list(extra)[0][0]]["term"]), f"retransmission loop can be left early through {sorted(extra)} (later messages starve)")
     out.append(r)
     out.append(shared.ack_once(t, "C01.g"))
